@@ -41,10 +41,65 @@ class Ty:
         return 1 + max((c.depth() for c in kids), default=-1) if kids or self.k in COMPOSITE else 0
 
 
-SCALARS = ('int', 'float', 'complex', 'bool', 'str', 'bytes', 'bytearray', 'none', 'decimal', 'fraction',
+SCALARS = ('cc', 'int', 'float', 'complex', 'bool', 'str', 'bytes', 'bytearray', 'none', 'decimal', 'fraction',
            'date', 'time', 'datetime', 'path', 'pattern', 'any', 'sub')
 COMPOSITE = ('list', 'seq', 'set', 'deque', 'tup', 'dict', 'counter', 'struct', 'union', 'lit', 'enum',
              'cond', 'tagged', 'dc', 'ndarray', 'vol', 'range')
+
+
+# -------------------------------------------------------------------------------------------
+# the documented user-converter pattern (docs/using/advanced.md): a class with the HasConverter protocol
+
+
+class CountryCode:
+    def __init__(self, code):
+        self.code = code
+
+    def __eq__(self, other):
+        return type(other) is CountryCode and self.code == other.code
+
+    def __hash__(self):
+        return hash(('cc', self.code))
+
+    def __repr__(self):
+        return f"CountryCode({self.code!r})"
+
+    @classmethod
+    def _converter(cls, *args, handlers):
+        if len(args):
+            raise TypeError("'CountryCode' doesn't support type arguments")
+        return CountryCodeConverter(cls)
+
+
+class CountryCodeConverter(env.Converter):
+    countries = {'gb', 'us', 'cn', 'uk'}
+
+    def __init__(self, ty):
+        self.ty = ty
+
+    def expected(self, plural=False):
+        return "country codes" if plural else "a country code"
+
+    def into_data(self, val):
+        return val.code if isinstance(val, CountryCode) else val
+
+    def try_convert(self, val):
+        if isinstance(val, CountryCode):
+            return val
+        if not isinstance(val, str):
+            raise env.ParseInterrupt()
+        if val not in self.countries:
+            raise env.ParseInterrupt()
+        return self.ty(val)
+
+    def collect_errors(self, val):
+        if isinstance(val, CountryCode):
+            return None
+        if not isinstance(val, str):
+            return env.m_errors.WrongTypeError(self.expected(), val)
+        if val not in self.countries:
+            return env.m_errors.WrongTypeError(self.expected(), val, info=f"Unknown country code '{val}'")
+        return None
 
 
 # -------------------------------------------------------------------------------------------
@@ -153,7 +208,7 @@ class ClassM:
 def describe(ty: Ty) -> str:
     k = ty.k
     if k in ('int', 'float', 'complex', 'bool', 'str', 'bytes', 'bytearray', 'none', 'decimal', 'fraction',
-             'date', 'time', 'datetime', 'any'):
+             'date', 'time', 'datetime', 'any', 'cc'):
         return k
     if k == 'path':
         return f"path<{ty.x['cls']}>"
@@ -277,6 +332,7 @@ def build(ty: Ty, rng=None, lit_ok=True):
     if k == 'time': return datetime.time
     if k == 'datetime': return datetime.datetime
     if k == 'any': return t.Any
+    if k == 'cc': return CountryCode
     if k == 'path': return _PATHS[ty.x['cls']]
     if k == 'pattern':
         of = ty.x.get('of')
@@ -476,7 +532,7 @@ def conforms(ty: Ty, obj, depth=0) -> bool:
                 return False
             for m, a in zip(ty.a, args):
                 if m.k in ('int', 'float', 'complex', 'bool', 'str', 'bytes', 'bytearray', 'none', 'decimal', 'fraction', 'date', 'time',
-                           'datetime', 'any', 'path', 'sub', 'enum', 'dc'):
+                           'datetime', 'any', 'path', 'sub', 'enum', 'dc', 'cc'):
                     if build(m) is not a and build(m) != a:
                         return False
                 elif not conforms(m, a, depth + 1):
